@@ -49,6 +49,7 @@ extern "C" int LLVMFuzzerInitialize(int* argc, char*** argv) {
     fz::rewriteArgs(argc, argv);
     ComputerPlayer::initEngine(); // what texel's main() does first (piece values, TB listeners)
     std::cerr.rdbuf(nullptr); // parsePgn prints a board for every invalid move
+    fz::runPendingReplay();
     return 0;
 }
 
